@@ -139,4 +139,11 @@ theorem Mean.merge_empty (a : Mean) : Mean.merge a Mean.empty = a := by
 theorem Mean.empty_merge (a : Mean) : Mean.merge Mean.empty a = a := by
   cases a; simp [Mean.merge, Mean.empty, Q.zero_add]
 
+theorem foldl_qadd_some (ys : List Rat) (a : Rat) :
+    (ys.map some).foldl Q.add (some a) = some (ys.foldl (· + ·) a) := by
+  induction ys generalizing a with
+  | nil => rfl
+  | cons y ys ih => simp [Q.add, ih]
+
+
 end MlModel.Agg.Retrieval
